@@ -4,6 +4,7 @@ import verif as V
 
 PROP = "C07"
 PROPS = "props/C07.v"
+PROPS_B = "props/C07b.v"   # one-shot iterators of Code.RunWithContext / Query.RunWithContext (coq/c07/OneShot.v)
 
 
 def unhex(h):
@@ -110,6 +111,21 @@ def correspond(c, exe_m, prog, seed, n, tier, extra=None, name=None, oracles_onl
     return st
 
 
+def oneshot(c, exe_m, seed, tier):
+    """one-shot iterators (wrong variable counts, compile errors through Query.Run): model c07/OneShot.v"""
+    rc, out, cases, st = V.run_harness("c07", "c07oneshot", seed, 0, tier, name="c07oneshot")
+    if rc != 0:
+        c.broken_correspondence("harness-run c07oneshot", None, V.tail(out, 40))
+        return st
+    for v in (st.get("impl_violations") or [])[:10]:
+        c.failing_input("impl-oracle (one-shot iterator): " + v.split(":")[0], v, v)
+    for line, verdict in V.compare_model(c, exe_m, cases, "c07oneshot")[:10]:
+        # the model is the property statement here: one error value, then (nil,false) forever, no poll, never ctx.Err()
+        c.failing_input("one-shot iterator (wrong variable count / compile error) is not <one error value, then (nil,false) forever, "
+                        "no poll of ctx.Done()>", line[:400], "expected " + verdict[:400])
+    return st
+
+
 def run(tier, seed, extra=None):
     c = V.Check(PROP, tier, seed)
     c.assumptions += [
@@ -124,6 +140,7 @@ def run(tier, seed, extra=None):
         "statement of the loop body; oracle: fetches == polls after every Next",
     ]
     c.prove(PROPS)
+    c.prove(PROPS_B)
     exe_h, hlog = V.build_harness("c07")
     st, std, stv = {}, {}, {}
     if exe_h is None:
@@ -135,6 +152,8 @@ def run(tier, seed, extra=None):
         else:
             n = 60 if tier == "quick" else 2000
             st = correspond(c, exe_m, "c07", seed, n, tier, extra=extra)
+            if not extra:
+                st["oneshot"] = oneshot(c, exe_m, seed, tier)
             exe_d, dlog = build_debug_harness()
             if exe_d is None:
                 c.broken_correspondence("debug-harness-build", None, V.tail(dlog, 40))
